@@ -352,6 +352,7 @@ func main() {
 	// ---- 6. the Consul mapping: ConsulLease.tla, consul.Leaser against a fake Consul endpoint ----
 	consulStage(rep, args, scripts)
 	streamEndsWithTenure(rep)
+	handoffToBusySubscriber(rep)
 
 	nontriv := 0
 	for _, o := range outs {
